@@ -271,6 +271,11 @@ func TestConc(t *testing.T) {
 		v, _ := strconv.Atoi(s)
 		budget = time.Duration(v) * time.Second
 	}
+	maxRecorded := 1 << 30 // recorded rounds (the rest only stress for races / aborts / deadlock)
+	if s := os.Getenv("VERIF_RECORD"); s != "" {
+		maxRecorded, _ = strconv.Atoi(s)
+	}
+	recorded := 0
 	maxOps := 14 // operations per recorded round (the sequential-order search is exponential in the worst case)
 	core.LoadConfig(core.DefaultConfig(), "/tmp")
 	core.GetConfig().Core.LogLevel = "ERROR"
@@ -301,7 +306,10 @@ func TestConc(t *testing.T) {
 		names := g.names()
 		ngor := []int{2, 2, 3, 4, 6, 8, 12, 16}[g.r.Intn(8)]
 		// unrecorded heavy rounds (every 4th): many more operations per goroutine, only race/crash/deadlock detection
-		heavy := round%4 == 3
+		heavy := round%4 == 3 || recorded >= maxRecorded
+		if !heavy {
+			recorded++
+		}
 		per := maxOps / ngor
 		if per < 1 {
 			per = 1
